@@ -117,7 +117,8 @@ class LinearOperator(EditableModule):
         super(LinearOperator, self).__init__()
         if len(shape) < 2:
             raise RuntimeError("The shape must have at least 2 dimensions")
-        self._shape = shape
+        # a shape of its own: the caller may go on using (and editing) a list
+        self._shape = shape if isinstance(shape, tuple) else tuple(shape)
         self._batchshape = list(shape[:-2])
         self._is_hermitian = is_hermitian
         self._dtype = dtype if dtype is not None else torch.float32
